@@ -60,24 +60,18 @@ def run(ctx):
     # read from guarded symbolic values: the search pointer equals the first entry / one past the last entry.
     from ..symval import SymVal, single, render
     from ..ptrnorm import ladd
-    ub = [x for x in walk(f) if x.get('kind') == 'CallExpr' and callee(x) and callee(x)[0] == 'fn' and
-          callee(x)[1].get('name') in ('upper_bound', 'lower_bound')]
-    sv0 = SymVal(ctx, f)
-    base = None
-    if len(ub) == 1:
-        a0 = single(sv0.value_ast(call_args(ub[0])[0]) or ())
-        if a0 is not None and a0[0] == 'ptr':
-            base = a0[1]
-    if base is None:
+    from ..symval import seeded_search
+    ss = seeded_search(ctx, f)
+    if ss is None:
         raise AnalysisBroken('C10-saturate: the table search of MakeTime was not found')
-    sv = SymVal(ctx, f, seed_calls=[(ub[0], ('ptr', base, {'U': 1}))])
+    sv, base, ubcall, _hf = ss
     size = '%s.size()' % base
     csk = '%s#%s' % (params_of(f)[0]['name'], params_of(f)[0]['id'])
     for rn in sv.cfg.returns:
         if not kids(rn.ast):
             continue
         rk = keys.key(kids(rn.ast)[0])
-        if not rk.startswith('cctz::MakeUnique(('):
+        if not rk.startswith('cctz::MakeUnique(') or re.search(r'(min|max)\(\)\)$', rk):
             continue
         fs = sv.facts(sv.conds_at(rn))
         lins = [fa for fa in fs if fa[0] == 'lin' and fa[1] == '==']
